@@ -394,12 +394,19 @@ def run_check(prop, stages, tier, seed, assumptions, rule, replay=None):
                 results.append(r)
         traces = []
         cands = []   # (job, t, line, tag)
+        drift = {}
         for job, viols, n in results:
             traces.append(job[6])
             for t, line, tags in viols:
                 for tag in tags:
                     if tag.split(".")[0] == prop:
                         cands.append((job, t, line, tag))
+                    elif tag.split(".")[0] == "X":
+                        # helpers outside the listed properties: specification drift, reported, never a verdict
+                        drift[tag] = drift.get(tag, 0) + 1
+        if drift:
+            cov["spec_drift_outside_listed_properties"] = drift
+            log("  note: helper behaviour differs from Helpers.tla (no verdict): %s" % drift)
         n_ev, n_tr, n_dist, samples = trace_stats(traces, stages[0].nontrivial)
         cov["evaluations"] = n_ev
         cov["traces_validated_against_impl"] = n_tr
